@@ -308,6 +308,32 @@ def judge(cfg, acc):
                 bad("reservations_range", "chip %r: reservation outside the "
                     "core range: %r" % (xy, cover))
                 return
+        # ---- the model under resource names of the caller's choosing
+        try:
+            mm = build_machine(si, core_resource="c", sdram_resource="sd",
+                               sram_resource="sr")
+            cc = build_core_constraints(si, core_resource="c")
+        except Exception as e:
+            bad("exception", "building the model with custom resource names "
+                "raised %s: %s" % (type(e).__name__, e),
+                exc=type(e).__name__)
+            return
+        for xy in live:
+            if sorted(mm[xy].items(), key=repr) != sorted(
+                    [("c", m[xy][Cores]), ("sd", m[xy][SDRAM]),
+                     ("sr", m[xy][SRAM])], key=repr):
+                bad("custom_resource_names", "chip %r: %r with custom "
+                    "resource names, %r with the built-in ones"
+                    % (xy, dict(mm[xy]), dict(m[xy])))
+                return
+        if set(mm) != set(m) or set(mm.dead_links) != set(m.dead_links) or \
+                sorted((repr(k.location), k.reservation.start,
+                        k.reservation.stop) for k in cc) != sorted(
+                (repr(k.location), k.reservation.start, k.reservation.stop)
+                for k in cons) or any(k.resource != "c" for k in cc):
+            bad("custom_resource_names", "machine / core reservations differ "
+                "when the caller names the resources")
+            return
         # ---- the single-purpose probes and the one-call machine model
         if len(sim.chips) <= 6:
             import warnings
